@@ -20,17 +20,18 @@ import (
 // validity check of C09.
 
 type WriterCfg struct {
-	Kind     string `json:"kind"` // "default" | "bytes"
-	FailAt   int    `json:"fail_at"`
-	InitLen  int    `json:"init_len"` // bytes writer: len of the initial slice
-	InitCap  int    `json:"init_cap"` // bytes writer: cap of the initial slice (-1 = nil slice)
-	Sizes    []int  `json:"sizes"`
-	Reverse  bool   `json:"reverse"`   // late regions are filled in reverse order of allocation
-	CoTenant int    `json:"co_tenant"` // 0 off, 1 keep, 2 free again
-	PayPow2  bool   `json:"pay_pow2"`  // WriteBinary payloads live in buffers of power-of-two capacity
-	RichSink bool   `json:"sink_has_WriteString_ReadFrom,omitempty"`
-	SinkMode int    `json:"sink_mode,omitempty"` // how the sink fails: 0 (0,err); 1 (len,err); 2 (len/2, timeout error)
-	Warm     int    `json:"warm,omitempty"`      // (Malloc(1), Flush) cycles performed before the history starts (size-statistics ring wraps at 10)
+	Kind           string `json:"kind"` // "default" | "bytes"
+	FailAt         int    `json:"fail_at"`
+	InitLen        int    `json:"init_len"` // bytes writer: len of the initial slice
+	InitCap        int    `json:"init_cap"` // bytes writer: cap of the initial slice (-1 = nil slice)
+	Sizes          []int  `json:"sizes"`
+	Reverse        bool   `json:"reverse"`   // late regions are filled in reverse order of allocation
+	CoTenant       int    `json:"co_tenant"` // 0 off, 1 keep, 2 free again
+	PayPow2        bool   `json:"pay_pow2"`  // WriteBinary payloads live in buffers of power-of-two capacity
+	RichSink       bool   `json:"sink_has_WriteString_ReadFrom,omitempty"`
+	SinkFlushFails bool   `json:"sink_flush_method_fails,omitempty"` // (RichSink) the sink's own Flush method returns an error; a writer that chooses to call it has a failed flush
+	SinkMode       int    `json:"sink_mode,omitempty"`               // how the sink fails: 0 (0,err); 1 (len,err); 2 (len/2, timeout error)
+	Warm           int    `json:"warm,omitempty"`                    // (Malloc(1), Flush) cycles performed before the history starts (size-statistics ring wraps at 10)
 }
 
 type wop struct {
@@ -115,7 +116,7 @@ func (s *writerSys) Reset() {
 		s.expected = append([]byte(nil), s.target...)
 		s.pending = len(s.target)
 	} else {
-		s.sink = &EnvWriter{FailAt: s.cfg.FailAt, Mode: s.cfg.SinkMode, Rich: s.cfg.RichSink}
+		s.sink = &EnvWriter{FailAt: s.cfg.FailAt, Mode: s.cfg.SinkMode, Rich: s.cfg.RichSink, FlushFails: s.cfg.SinkFlushFails}
 		dw := bufiox.NewDefaultWriter(s.sink.Sink())
 		s.w, s.dw = dw, dw
 	}
@@ -295,6 +296,11 @@ func (s *writerSys) Apply(op int, check bool) (what, sig string) {
 			}
 			if s.sink != nil {
 				willFail := s.sink.FailAt > 0 && s.sink.Calls >= s.sink.FailAt
+				if !willFail && err != nil && s.sink.FlushFails && s.sink.FlushCalls > 0 && errors.Is(err, errSink) {
+					// the writer chose to call the sink's own Flush method, which failed: a failed flush like any other (the
+					// bytes had been written to the sink before)
+					willFail = true
+				}
 				if willFail {
 					if err == nil {
 						fail("sink-error-lost", "the sink rejected the write but Flush returned nil")
